@@ -28,8 +28,12 @@ What is followed, program point by program point:
 * BADGE. `current = covered*100/total` (100 when total = 0) as an integer; the templates choose
   three geometry numbers by `current >= 100`, `current >= 10`, and the colour by
   `current >= hi_limit`, `current >= med_limit` (Tera compares as f64; the limits are the f64
-  nearest to the decimals of the `--output-config-file`, default 90 and 75). The templates are in
-  `MdBytesTpl.lean` (generated from the files; literal bytes, holes).
+  nearest to the decimals of the `--output-config-file`, default 90 and 75; a `Limit` is a
+  non-negative decimal, negative limits are not modelled). The templates are in `MdBytesTpl.lean`
+  (generated from the files; literal bytes, holes). `covered * 100` is a `usize` product: it
+  overflows (panic with overflow checks) beyond 2^64/100 covered lines, which no run can count:
+  not modelled. Rendering below the level of a template (Tera's parser and evaluator) stays a
+  parameter: the model is the text Tera produces for these five templates.
 * coverage.json: serde_json's compact writer on the struct (field order of the declaration):
   `{"schemaVersion":1,"label":"coverage","message":"<{:.p$}>%","color":"green|yellow|red"}`, the
   colour by `coverage >= hi_limit` / `>= med_limit` on the f64 percentage.
